@@ -288,8 +288,7 @@ PROPS["C02"] = {
     "bounded": lambda tier: [],
     "design_ref": "DESIGN.md §6 C02",
     "undecided": [
-        "the global converse (a step refused only because the neighbour is no longer available is a legitimate boundary) and hence 'no two output nodes could be merged'; uniqueness of the decomposition",
-        "k-mer level, whole run (unit buildnode): 'only if' IS a postcondition of the real compress_kmers - consecutive k-mers of every output node are joined by a link that is the sole extension on both facing sides, between k-mers that are not their own reverse complement (unstranded), accepted by the join predicate (step_rec inside graph_post), and both walks of every node stopped only where the link predicate failed w.r.t. the k-mers still available (build_post); the 'if' direction as a whole-run statement (a walk refused only because the neighbour was already placed is a legitimate boundary, hence no two output nodes could be merged) needs extension symmetry of the input and is not decided",
+        "k-mer level, whole run (unit buildnode): 'only if' IS a postcondition of the real compress_kmers (step_rec inside graph_post: consecutive k-mers of every output node are joined by a link that is the sole extension on both facing sides, between k-mers that are not their own reverse complement (unstranded), accepted by the join predicate), and so is MAXIMALITY at the node ends (end_ok inside graph_post: if an end k-mer of a node could still link outwards, the k-mer it would link to is spelled by the same or an earlier node), from which 'no two output nodes could be merged' follows as the proved lemma lemma_no_merge (two nodes whose facing ends could link to each other are one node - an isolated cycle cut once). NOT decided: the full 'if' for a link that enters a node at an interior k-mer through the side the walk came from (needs extension symmetry of the input), and uniqueness of the decomposition",
         "node level (CompressFromGraph): try_extend_node is proved sound in both directions relative to the link that find_link resolves (Unique only along an acceptable link, Terminal only if the node may not leave or the resolved link is not acceptable); the lookup result itself is only specified relationally (link_post)"],
     "trust": VERUS_TRUST + GRAPH_TRUST + [SEAM_NOTE,
         "CompressionSpec::join_test / reduce are deterministic functions of their arguments (join_spec, reduce_spec)",
